@@ -51,12 +51,16 @@ void h_pnum_int(void) {
   }
 #if LEN >= 20
   if (k == 1 || k == 4) {
-    /* the scaled pair must denote the literal up to dropped low digits: m*10^e <= val < (m+1)*10^e */
+    /* never a wrong magnitude: (number of decimal digits of the mantissa) + exponent == number of digits of the literal
+       (leading zeros not counted). Implied by  m*10^e <= val < (m+1)*10^e  and much cheaper for the solver. */
     VASSERT(g_mf_calls >= 1 && g_mf_calls <= 2, "scaling invoked (a second, double-precision attempt is allowed)");
     if (!big) {
-      u128 m = (u128)g_mf_m; VASSERT((double)(uint64_t)m == g_mf_m, "mantissa is an integer"); VASSERT(g_mf_e >= 0 && g_mf_e <= 12, "exponent offset counts the dropped digits");
-      static const uint64_t P10[13] = {1ULL, 10ULL, 100ULL, 1000ULL, 10000ULL, 100000ULL, 1000000ULL, 10000000ULL, 100000000ULL, 1000000000ULL, 10000000000ULL, 100000000000ULL, 1000000000000ULL};
-      for (int j = 0; j <= 12; j++) if (g_mf_e == j) VASSERT(m * P10[j] <= val && val < (m + 1) * P10[j], "mantissa x 10^exponent is the literal truncated to the kept digits (never a wrong magnitude)");
+      uint64_t m = (uint64_t)g_mf_m; VASSERT((double)m == g_mf_m && m <= (1ULL << 53), "mantissa is an integer below 2^53");
+      static const uint64_t P10[20] = {1ULL, 10ULL, 100ULL, 1000ULL, 10000ULL, 100000ULL, 1000000ULL, 10000000ULL, 100000000ULL, 1000000000ULL, 10000000000ULL, 100000000000ULL, 1000000000000ULL,
+                                        10000000000000ULL, 100000000000000ULL, 1000000000000000ULL, 10000000000000000ULL, 100000000000000000ULL, 1000000000000000000ULL, 10000000000000000000ULL};
+      int dm = 0; for (int j = 0; j < 20; j++) if (m >= P10[j]) dm = j + 1;
+      int dv = 0; u128 pw = 1; for (int j = 0; j < LEN + 1; j++) { if (val >= pw) dv = j + 1; pw *= 10; }
+      VASSERT(dm + g_mf_e == dv, "digits(mantissa) + exponent == digits(literal): never a value of the wrong magnitude");
     }
   }
 #endif
